@@ -203,16 +203,16 @@ func c48SameExts(got []pkix.Extension, want []pkix.Extension) error {
 
 // c48Want is the expected content of an accepted response.
 type c48Want struct {
-	status, reason       int
-	serial               *big.Int
-	thisU, nextU, revAt  time.Time
-	hash                 crypto.Hash
-	exts                 []pkix.Extension
-	respName, respKey    []byte // exactly one non-nil
-	cert                 []byte // embedded certificate DER or nil
-	sigAlg               x509.SignatureAlgorithm
+	status, reason         int
+	serial                 *big.Int
+	thisU, nextU, revAt    time.Time
+	hash                   crypto.Hash
+	exts                   []pkix.Extension
+	respName, respKey      []byte // exactly one non-nil
+	cert                   []byte // embedded certificate DER or nil
+	sigAlg                 x509.SignatureAlgorithm
 	producedLo, producedHi time.Time
-	raw, tbs, sig        []byte
+	raw, tbs, sig          []byte
 }
 
 func c48CheckFields(r *ocsp.Response, w c48Want) error {
